@@ -50,9 +50,26 @@ type queueWorld struct {
 	outOfEnvelope map[string]bool // uid -> label/owner mismatch or applied-err seen
 	maxSeen       map[string]int64
 	jobsSeen      []string
-	// C11: last known server-side status.startTime (unix seconds) per Job name.  Names are never
-	// reused within a case; the external writer q.extstart sets startTime only when it is nil.
+	// C11: last known server-side status.startTime (unix seconds) per Job UID (a name can be taken
+	// again by another Job inside a watch outage, q.outage); the external writer q.extstart sets
+	// startTime only when it is nil.
 	startSeen map[string]int64
+
+	// envBroken: names of the envelopes (DESIGN.md 4.4) this history has left; a monitor that is
+	// suppressed for an out-of-envelope JobConfig counts what it would have reported under
+	// q.outside.<monitor>[.<envelope>], so that the evidence shows the behaviour is exercised.
+	envBroken map[string]bool
+	// outage: the Jobs watch is interrupted (q.outage): no Job event reaches the cache until the
+	// informer relists (q.relist) or the process restarts.
+	outage bool
+	// startedByUs: UIDs of the Jobs a start write of this engine's controller was applied for.
+	startedByUs map[types.UID]bool
+	// judgeOutside: corpus scenarios that replay a known finding leave an envelope on purpose and
+	// want the monitors to judge: outside() then only counts.
+	judgeOutside bool
+	// bootWindow: number of Job watch events that reach the cache between the registration of the
+	// store's handler and the lister read inside activejobstore.Recover of the next boot.
+	bootWindow int
 }
 
 func (w *queueWorld) now() int64 { return w.clk.Now().UnixNano() }
@@ -84,7 +101,20 @@ func (w *queueWorld) boot() {
 	store, _ := activejobstore.NewStore(w.ctx)
 	w.ctx.Stores().Register(store)
 	cctx, cancel := context.WithCancel(context.Background())
+	// Recover is ONE Go call: Start (AddEventHandler), wait for HasSynced, Lister().List(), count.
+	// The registration hook opens the window between the first and the third step: bootWindow
+	// watch events are applied to the cache there; each is in the lister Recover counts from and
+	// is also notified to the store's handler (queued; it runs on q.notify 0 / flush).
+	if n := w.bootWindow; n > 0 {
+		jobsInf.OnRegister = func(h int) {
+			for i := 0; h == 0 && i < n; i++ {
+				w.api.DeliverOne("jobs", jobsInf)
+			}
+		}
+	}
 	_ = store.Recover(cctx) // handler 0 on the Jobs informer
+	jobsInf.OnRegister = nil
+	w.bootWindow = 0
 	cancel()
 	w.store = store
 	rec := &record.FakeRecorder{}
@@ -157,7 +187,8 @@ func (w *queueWorld) checkStartTimes() {
 	}
 	for _, k := range w.api.Keys("jobs") {
 		j := w.api.Get("jobs", k).(*execution.Job)
-		prev, seen := w.startSeen[j.Name]
+		id := string(j.UID)
+		prev, seen := w.startSeen[id]
 		cur := j.Status.StartTime
 		if seen && (cur == nil || cur.Unix() != prev) {
 			now := "nil"
@@ -167,9 +198,9 @@ func (w *queueWorld) checkStartTimes() {
 			w.c.Violate("C11", "start-time-stable", "status.startTime of job %s was %d and is now %s (clock %d)", j.Name, prev, now, w.now())
 		}
 		if cur != nil {
-			w.startSeen[j.Name] = cur.Unix()
+			w.startSeen[id] = cur.Unix()
 		} else {
-			delete(w.startSeen, j.Name)
+			delete(w.startSeen, id)
 		}
 	}
 }
@@ -207,6 +238,9 @@ func (w *queueWorld) work(which string) { w.workMid(which, 0) }
 // mid-th API write of this step is applied: every pending Job event is delivered to the cache
 // and the store's handler runs all its notifications (the queue controller's handler lags).
 func (w *queueWorld) workMid(which string, mid int) {
+	if w.outage {
+		mid = 0 // nothing can be delivered to the Jobs cache while its watch is down
+	}
 	q, rc := w.cfgQ, w.rcCfg
 	if which == "ind" {
 		q, rc = w.indQ, w.rcInd
@@ -287,13 +321,21 @@ func (w *queueWorld) monitorCall(c sim.Call) {
 		}
 		if c.Subresource == "status" { // a start write
 			w.c.Count("q.start-ok")
+			if w.startedByUs == nil {
+				w.startedByUs = map[types.UID]bool{}
+			}
+			w.startedByUs[j.UID] = true
 			if sp := j.Spec.StartPolicy; sp != nil && sp.StartAfter != nil && sp.StartAfter.UnixNano() > w.now() {
 				w.c.Violate("C07", "never-before-startAfter", "job %s started at %d before startAfter %d", name, w.now(), sp.StartAfter.UnixNano())
 			}
-			if uid != "" && (pol == "Forbid" || pol == "Enqueue") && !w.outOfEnvelope[uid] {
+			if uid != "" && (pol == "Forbid" || pol == "Enqueue") {
 				act := w.trueActive(uid, name)
 				if act+1 > w.maxSeen[uid] {
-					w.c.Violate("C05", "never-over-limit", "job %s (%s) started while %d Jobs of %s already active, maxConcurrency %d", name, pol, act, uid, w.maxSeen[uid])
+					if w.outOfEnvelope[uid] {
+						w.countOutside("never-over-limit")
+					} else {
+						w.c.Violate("C05", "never-over-limit", "job %s (%s) started while %d Jobs of %s already active, maxConcurrency %d", name, pol, act, uid, w.maxSeen[uid])
+					}
 				}
 			}
 			// FIFO among Enqueue jobs
@@ -357,6 +399,7 @@ func queueScenarios(c *Ctx) {
 		counterConservationStress(c)
 		c.Nontrivial()
 	})
+	queueEnvScenarios(c)
 	// A Forbid Job over the limit stays queued until the job controller makes it terminal, so
 	// every pass rejects it again.  RejectJob with the identical annotation (same JobConfig name
 	// and active count in the message) is an Update that changes nothing: the API answers ok
@@ -655,6 +698,9 @@ func queueCase(c *Ctx, rng *rand.Rand) {
 	}
 	starts0 := c.Stats["q.start-ok"]
 	for step := 0; step < nsteps; step++ {
+		if w.envStep(jcNames, &jobN, maxJobs) {
+			continue
+		}
 		switch r := rng.Intn(100); {
 		case r < 6: // create a JobConfig
 			mkJC(jcNames[rng.Intn(len(jcNames))])
@@ -840,27 +886,12 @@ func queueCase(c *Ctx, rng *rand.Rand) {
 			f := []string{sim.FaultErr, sim.FaultConflict, sim.FaultTimeout}[rng.Intn(3)]
 			if rng.Intn(20) == 0 {
 				f = sim.FaultAppliedErr
-				for _, u := range w.uids {
-					w.outOfEnvelope[u] = true
-				}
+				w.outside("E-ErrNotApplied")
 			}
 			w.faults = append(w.faults, f)
 			c.Emit("q.fault "+f, w.digest())
 		case r < 98: // restart
-			w.faults = nil
-			w.api.DropPending()
-			for _, r := range []struct {
-				res string
-				inf *sim.FakeInformer
-			}{{"jobs", w.ctx.Sim().Jobs()}, {"jobconfigs", w.ctx.Sim().JobConfigs()}} {
-				r.inf.ClearCache()
-				for _, k := range w.api.Keys(r.res) {
-					r.inf.CacheSet(w.api.Get(r.res, k).DeepCopyObject())
-				}
-			}
-			w.boot()
-			c.Emit("q.restart", w.digest())
-			c.Count("q.restart")
+			w.restartRandom()
 		default:
 			w.settle()
 		}
@@ -1051,10 +1082,19 @@ func (w *queueWorld) flush() {
 }
 
 // settle drives the system to quiescence (deliver, notify, fire timers that are due, work
-// until idle, one resync round) and runs the quiescent-state monitors.
+// until idle, one resync round) and runs the quiescent-state monitors.  A watch outage is ended by
+// a relist first.  The fixpoint reached BEFORE the resync round is judged too, by counters only
+// (q.settle.stuck-before-resync, q.settle.needed-resync-to-converge): a wake-up that was lost and is
+// repaired only by the periodic resync (F10; a Job notification dropped because its JobConfig was
+// not cached yet; a relist that pairs two different Jobs) is invisible to the final monitors by
+// construction, the counters make it visible in the evidence.
 func (w *queueWorld) settle() {
 	w.faults = nil
 	w.c.Emit("q.clearfaults", w.digest())
+	if w.outage {
+		w.relist()
+	}
+	stuckBefore, judgedBefore := 0, false
 	for round := 0; round < 3; round++ {
 		for iter := 0; iter < 50; iter++ {
 			w.flush()
@@ -1079,6 +1119,14 @@ func (w *queueWorld) settle() {
 			}
 		}
 		if round == 0 {
+			// the fixpoint without resync: only judged when no timer or rate-limited retry is
+			// still pending (otherwise a queued Job may simply be waiting for it)
+			if len(w.cfgQ.Delayed()) == 0 && len(w.indQ.Delayed()) == 0 {
+				judgedBefore = true
+				stuckBefore = len(w.quiescentLiveness(false))
+			} else {
+				w.c.Count("q.settle.timers-pending-before-resync")
+			}
 			w.ctx.Sim().Jobs().Resync()
 			w.c.Emit("q.resync", w.digest())
 		}
@@ -1091,12 +1139,30 @@ func (w *queueWorld) settle() {
 	w.c.Count("q.settle")
 	// quiescent monitors
 	for _, u := range w.uids {
-		if w.outOfEnvelope[u] {
-			continue
-		}
 		cnt := w.store.CountActiveJobsForConfig(&execution.JobConfig{ObjectMeta: metav1.ObjectMeta{UID: types.UID(u)}})
 		if act := w.trueActive(u, ""); cnt != act {
+			if w.outOfEnvelope[u] {
+				w.countOutside("quiescent-exact")
+				continue
+			}
 			w.c.Violate("C05", "quiescent-exact", "counter of %s is %d but %d Jobs are active", u, cnt, act)
+		}
+	}
+	stuckAfter := w.quiescentLiveness(true)
+	if judgedBefore && stuckBefore > 0 {
+		w.c.Count("q.settle.stuck-before-resync")
+		if len(stuckAfter) == 0 {
+			w.c.Count("q.settle.needed-resync-to-converge")
+		}
+	}
+}
+
+// quiescentLiveness lists the due, still queued Jobs that the liveness clauses of C06/C07 say
+// must have been started (or rejected) in a quiescent state; with report it raises the monitors.
+func (w *queueWorld) quiescentLiveness(report bool) (stuck []string) {
+	v := func(property, monitor, format string, args ...interface{}) {
+		if report {
+			w.c.Violate(property, monitor, format, args...)
 		}
 	}
 	var names []string
@@ -1120,7 +1186,8 @@ func (w *queueWorld) settle() {
 		uid := j.Labels[jobconfig.LabelKeyJobConfigUID]
 		ref := metav1.GetControllerOf(j)
 		if ref == nil && uid == "" {
-			w.c.Violate("C07", "independent-eventually-starts", "independent job %s is due but still queued at quiescence", j.Name)
+			stuck = append(stuck, j.Name)
+			v("C07", "independent-eventually-starts", "independent job %s is due but still queued at quiescence", j.Name)
 			continue
 		}
 		if ref == nil || uid == "" || w.outOfEnvelope[uid] {
@@ -1135,19 +1202,28 @@ func (w *queueWorld) settle() {
 		if sp != nil {
 			pol = sp.ConcurrencyPolicy
 		}
+		// C07 "once the time has passed (and, for JobConfig Jobs, the concurrency policy allows) it
+		// is started without further user action": the owned Job's side of eventually-starts
 		switch pol {
 		case "Enqueue":
 			if w.trueActive(uid, "") < jc.Spec.Concurrency.GetMaxConcurrency() {
-				w.c.Violate("C06", "no-stuck-job", "Enqueue job %s still queued at quiescence with %d/%d active", j.Name, w.trueActive(uid, ""), jc.Spec.Concurrency.GetMaxConcurrency())
+				stuck = append(stuck, j.Name)
+				v("C06", "no-stuck-job", "Enqueue job %s still queued at quiescence with %d/%d active", j.Name, w.trueActive(uid, ""), jc.Spec.Concurrency.GetMaxConcurrency())
+				v("C07", "eventually-starts", "Enqueue job %s of %s is due and the policy allows it (%d/%d active) but it is still queued at quiescence", j.Name, ref.Name, w.trueActive(uid, ""), jc.Spec.Concurrency.GetMaxConcurrency())
 			}
 		case "Forbid":
+			stuck = append(stuck, j.Name)
 			if w.trueActive(uid, "") < jc.Spec.Concurrency.GetMaxConcurrency() {
-				w.c.Violate("C06", "no-stuck-job", "Forbid job %s neither started nor rejected at quiescence with free capacity", j.Name)
+				v("C06", "no-stuck-job", "Forbid job %s neither started nor rejected at quiescence with free capacity", j.Name)
+				v("C07", "eventually-starts", "Forbid job %s of %s is due and the policy allows it (%d/%d active) but it is still queued at quiescence", j.Name, ref.Name, w.trueActive(uid, ""), jc.Spec.Concurrency.GetMaxConcurrency())
 			} else {
-				w.c.Violate("C06", "forbid-rejected", "Forbid job %s still queued (not rejected) at quiescence while at the limit", j.Name)
+				v("C06", "forbid-rejected", "Forbid job %s still queued (not rejected) at quiescence while at the limit", j.Name)
 			}
 		default:
-			w.c.Violate("C06", "allow-always-starts", "Allow job %s is due but still queued at quiescence", j.Name)
+			stuck = append(stuck, j.Name)
+			v("C06", "allow-always-starts", "Allow job %s is due but still queued at quiescence", j.Name)
+			v("C07", "eventually-starts", "Allow job %s of %s is due but still queued at quiescence", j.Name, ref.Name)
 		}
 	}
+	return stuck
 }
